@@ -17,32 +17,35 @@ from .lib.runner import Outcome, Failure
 PROP = "C28"
 PROPS_FILE = "Props/C28.v"
 MANIFEST = dict(
-    text="Coq theorems, closed under the global context. C28_slurm_verdict: for EVERY pair of squeue/sacct answer "
+    text="Coq theorems, closed under the global context. C28_slurm_verdict_raw: the verdict on RAW scheduler text (sacct "
+         "stdout parsed by an exact model of _sacct_re) for every stream of printed accounting lines; C28_options_general: "
+         "for EVERY clean token list in the handled option forms (computable forms_ok) the sbatch vector is the user's "
+         "tokens, the worker's default for exactly the options the user did not give, then the script. "
+         "C28_slurm_verdict: for EVERY pair of squeue/sacct answer "
          "streams and every error file, when requeueing is allowed the model of SlurmWorker.run reports complete iff the "
          "first decisive report is COMPLETED with exit 0, failed iff it is another final state, issues exactly one "
          "'scontrol requeue' per cancellation/timeout/preemption before it and never fails because of one "
          "(C28_interrupted_never_failed); C28_slurm_verdict_norequeue + C28_refuted_norequeue_reported_complete: with "
          "--no-requeue an interrupted job is reported complete (known finding F28d). Options: C28_sbatch_argv_shape (user "
          "tokens first and untouched, defaults only where the regexes found nothing, script last, for every argument "
-         "string), C28_options_once_family (complete sweep of a finite family: each of job-name/output/error exactly "
-         "once), C28_refuted_option_form ('--job-name name', '-Jname' get a second option appended: F28c). "
+         "string), C28_refuted_cancelled_by (untruncated 'CANCELLED by <uid>' read as status <uid>: F28e), "
+         "C28_refuted_option_form ('--job-name name', '-Jname' get a second option appended: F28c). "
          "C28_pinned_refuted_user_error_option: the pinned tree crashed on a user -e/--error (fixed by a fix: commit). "
          "C28_sge_verify: SgeWorker._verify_exit_code on every list of accounting records. SgeWorker.run itself cannot "
          "run on this tree (known finding F28b). Model tied to the code on every run with a scripted scheduler "
          "(read_and_display_async patched).",
-    note="Partial: the sacct regex is not modelled (structured answers rendered by the harness); 'and its result exists' "
-         "is decided at the submitter level (C15), not in the worker; options proved exactly-once only on the swept "
-         "family; SGE run/_rerun_job_array not modelled (they cannot execute).",
+    note="Partial: 'and its result exists' is decided at the submitter level (C15), not in the worker; option forms "
+         "outside forms_ok are the known finding F28c; SGE run/_rerun_job_array not modelled (they cannot execute).",
     technique="Coq proof (induction over the answer streams: two-stream polling loop refines classify-then-decide; "
-              "finite sweep lifted by forallb_forall for options) + model/impl correspondence with a scripted scheduler",
+              "regex scanner inverts the accounting-line printer; look-behind option search characterised token by token) + model/impl correspondence with a scripted scheduler",
     design="§8 Group G / C28",
 )
 TIE_NAME = "Model.Batch.slurm_run / sge_verify vs SlurmWorker.run / SgeWorker._verify_exit_code (scripted scheduler)"
 TRUSTED = [
     "Model/Batch.v: hand-written model of SlurmWorker.run/_poll_job/_verify_exit_code (option regexes, str.split, "
     "substring tests, str.replace, first-digits search modelled exactly on ASCII) and of SgeWorker._verify_exit_code",
-    "the sacct regex (_sacct_re) and the SGE stderr regex are not modelled: the harness renders structured answers "
-    "(empty / '<id> STATUS[+] <code>:0' / unmatched text; 'error: job id N not found')",
+    "the sacct regex (_sacct_re) is modelled exactly as a backtracking scanner (parse_sacct) and fed the raw stdout text; "
+    "the SGE stderr regex is not modelled ('error: job id N not found' rendered by the harness)",
     "the status lists are read from the live source by ast (fail closed) and passed to the model; the theorems hold for "
     "any lists that agree with the statement's classes (lists_agree), which is evaluated on the live lists each run",
     "side effects of the requeue branch (lock-file removal) and _prepare_runscripts are not modelled",
@@ -133,8 +136,31 @@ def unrecognised(items):
     return any(it[0] == "opt" and it[2] not in ("short", "long") for it in items or [])
 
 
+FORMS = ["std", "std", "std", "trunc", "extra", "lead", "wide", "multi", "tab_after"]
+
+
+def render_acct(st, code, form, jobid="123"):
+    """Raw sacct stdout for a job in state st with exit code `code`, in one of the layouts sacct can produce."""
+    shown = st
+    if form == "trunc" and len(st) >= 9:
+        shown = st[:9] + "+"                      # State column is 10 wide: CANCELLED by 1000 -> CANCELLED+
+    if form == "by":
+        shown = st + " by 1000"                   # untruncated (State%%20): only meaningful for CANCELLED
+    line = "%-12s %-10s %3d:0 " % (jobid, shown, code) if form in ("wide", "by") else "%s    %s    %d:0" % (jobid, shown, code)
+    if form == "extra":
+        line += "   00:00:03  node17"
+    if form == "lead":
+        line = "   " + line
+    if form == "multi":
+        line += "\n%s.batch    %s    %d:0" % (jobid, shown, code)
+    if form == "tab_after":
+        line += "\t"
+    return line + "\n"
+
+
 def render_report(r, jobid="123"):
-    kind, st, code = r
+    kind, st, code = r[0], r[1], r[2]
+    form = r[3] if len(r) > 3 else "std"
     if kind == "queue":
         return ("queue", ("  %s debug add.x user R 0:01 1 node1\n" % jobid, ""))
     if kind == "queue_loaderr":
@@ -143,12 +169,13 @@ def render_report(r, jobid="123"):
     if kind == "none":
         return ("acct", sq, "")
     if kind == "garbage":
-        return ("acct", sq, "sacct: error: no such cluster\n")
-    return ("acct", sq, "%s    %s%s    %d:0\n" % (jobid, st, "+" if st == "CANCELLED" and code else "", code))
+        return ("acct", sq, "sacct: error: no such cluster\n" if form != "nostatus" else "%s    0:0\n" % jobid)
+    return ("acct", sq, render_acct(st, code, form, jobid))
 
 
 def first_decisive(reports, requeue_allowed):
-    for kind, st, code in reports:
+    for rep in reports:
+        kind, st, code = rep[0], rep[1], rep[2]
         if kind in ("queue",):
             continue
         if kind == "queue_loaderr":
@@ -300,17 +327,29 @@ def enc_ctx(c):
 
 
 def enc_sched(sbatch, pairs, errfile):
-    """pairs: list of (raw report, rendered poll)."""
+    """pairs: list of (raw report, rendered poll). sacct answers are given to Coq as the raw stdout text."""
     sq = coqio.lst(["{| sq_stdout := %s; sq_stderr := %s |}" % (coqio.string(r[1][0]), coqio.string(r[1][1])) for _, r in pairs])
+    sa = [coqio.string(r[2]) for _, r in pairs if r[0] == "acct"]
+    ef = "None" if errfile is None else "(Some %s)" % coqio.lst([coqio.string(l) for l in errfile])
+    return "{| sb_rc := %s; sb_stdout := %s; s_squeue := %s; s_sacct := %s; s_errfile := %s |}" % (
+        coqio.nat(sbatch[0]), coqio.string(sbatch[1]), sq, coqio.lst(sa), ef)
+
+
+def enc_intended(pairs):
+    """What each accounting text says (state word, exit code), as the harness wrote it."""
     sa = []
     for raw, r in pairs:
         if r[0] != "acct":
             continue
-        kind, st, code = raw
-        sa.append("SaNone" if kind == "none" else "SaGarbage" if kind == "garbage" else "(SaLine %s %s)" % (coqio.string(st), coqio.nat(code)))
-    ef = "None" if errfile is None else "(Some %s)" % coqio.lst([coqio.string(l) for l in errfile])
-    return "{| sb_rc := %s; sb_stdout := %s; s_squeue := %s; s_sacct := %s; s_errfile := %s |}" % (
-        coqio.nat(sbatch[0]), coqio.string(sbatch[1]), sq, coqio.lst(sa), ef)
+        kind, st, code = raw[0], raw[1], raw[2]
+        form = raw[3] if len(raw) > 3 else "std"
+        if kind == "none":
+            sa.append("SaNone")
+        elif kind == "garbage":
+            sa.append("SaGarbage" if form != "nostatus" else "(SaLine %s %s)" % (coqio.string(""), coqio.nat(0)))
+        else:
+            sa.append("(SaLine %s %s)" % (coqio.string(st), coqio.nat(code)))
+    return coqio.lst(sa)
 
 
 def enc_verdict(v):
@@ -344,9 +383,9 @@ Definition outcome_eqb (a b : outcome) : bool :=
   | _, _ => false
   end.
 (* ctx, scheduler, user tokens when the arguments were generated from items, observed argv / verdict / commands / error file *)
-Definition case_t := (submit_ctx * scheduler * option (list string) * (list string * verdict * list cmd * option string))%%type.
+Definition case_t := (submit_ctx * scheduler * list sacct_ans * option (list string) * (list string * verdict * list cmd * option string))%%type.
 Definition tie_ok (c : case_t) : bool :=
-  let '(ctx, s, toks, (argv, v, t, ef)) := c in
+  let '(ctx, s, intended, toks, (argv, v, t, ef)) := c in
   let '(margv, mv, mt) := slurm_run sl_live ctx s in
   list_eqb String.eqb margv argv && verdict_eqb mv v && list_eqb cmd_eqb mt t &&
   match ef, first_digits (sb_stdout s) with
@@ -354,17 +393,17 @@ Definition tie_ok (c : case_t) : bool :=
   | _, _ => true
   end.
 Definition spec_verdict_ok (c : case_t) : bool :=
-  let '(ctx, s, toks, (argv, v, t, ef)) := c in
+  let '(ctx, s, intended, toks, (argv, v, t, ef)) := c in
   match toks with
   | None => true
   | Some tk =>
       if negb (Nat.eqb (sb_rc s) 0) || match first_digits (sb_stdout s) with None => true | Some _ => false end
       then outcome_eqb (outcome_of v) OFailed
-      else let '(o, n) := decide (negb (existsb (String.eqb "--no-requeue") tk)) (reports st0 (s_squeue s) (s_sacct s)) in
+      else let '(o, n) := decide (negb (existsb (String.eqb "--no-requeue") tk)) (reports st0 (s_squeue s) intended) in
            outcome_eqb (outcome_of v) o && Nat.eqb (count_requeues t) n
   end.
 Definition spec_options_ok (c : case_t) : bool :=
-  let '(ctx, s, toks, (argv, v, t, ef)) := c in
+  let '(ctx, s, intended, toks, (argv, v, t, ef)) := c in
   match toks with
   | None => true
   | Some tk => if forallb (fun k => Nat.leb (occurrences k tk) 1) [KName; KOut; KErr]
@@ -429,7 +468,10 @@ def slurm_cases(ctx, tmp):
     for c in ctx.corpus():
         cases.append(c)
     for i, reports in enumerate(seqs):
-        # a load error must be followed by an accounting answer: fold it into the next accounting report
+        # raw layout of every accounting answer (the exhaustive sequences keep the standard layout half of the time)
+        reports = [list(r) + [("by" if (r[1] == "CANCELLED" and rng.random() < 0.08) else
+                               "nostatus" if (r[0] == "garbage" and rng.random() < 0.3) else
+                               rng.choice(FORMS) if (i >= exhaustive_n or rng.random() < 0.5) else "std")] for r in reports]
         items = gen_items(rng, tmp, allow_bad=(i % 5 == 0))
         r = rng.random()
         sbatch = [0, "Submitted batch job 123\n"] if r < 0.9 else [1, ""] if r < 0.94 else [0, "queued\n"] if r < 0.97 else [0, "job 0042 on cluster 7\n"]
@@ -440,7 +482,7 @@ def slurm_cases(ctx, tmp):
     for _ in range(ctx.budget(80, 500)):
         args = "".join(rng.choice(frag) for _ in range(rng.randrange(1, 8))).strip()
         cases.append(dict(items=None, args=args, sbatch=[0, "Submitted batch job 123\n"],
-                          reports=[list(rng.choice(ALPHABET)) for _ in range(rng.randrange(0, 4))], errfile=rng.choice(ERRFILES)))
+                          reports=[list(rng.choice(ALPHABET)) + [rng.choice(FORMS)] for _ in range(rng.randrange(0, 4))], errfile=rng.choice(ERRFILES)))
     return cases, exhaustive_n
 
 
@@ -450,17 +492,21 @@ def normalise_reports(reports):
     for r in reports:
         r = tuple(r)
         if r[0] == "queue_loaderr":
-            out.append((("acct", "RUNNING", 0), ("acct", ("", "slurm_load_jobs error: Invalid job id specified\n"), "123    RUNNING    0:0\n")))
+            out.append((("acct", "RUNNING", 0, "std"), ("acct", ("", "slurm_load_jobs error: Invalid job id specified\n"), "123    RUNNING    0:0\n")))
         else:
             out.append((r, render_report(r)))
     return out
+
+
+def by_form(reports):
+    return any(len(r) > 3 and r[3] == "by" for r in reports)
 
 
 def run(ctx):
     lists = live_lists()
     out = Outcome(rule=RULE)
     tmp = tempfile.mkdtemp(prefix="c28-", dir="/tmp")
-    dist = {"slurm_cases": 0, "exhaustive_sequences": 0, "user_option_cases": 0, "unrecognised_form_cases": 0, "no_requeue_cases": 0,
+    dist = {"raw_forms": {}, "slurm_cases": 0, "exhaustive_sequences": 0, "user_option_cases": 0, "unrecognised_form_cases": 0, "no_requeue_cases": 0,
             "raw_args_cases": 0, "sge_verify_cases": 0, "verdicts": {}}
     try:
         h = Harness(tmp)
@@ -472,6 +518,9 @@ def run(ctx):
             rendered = [p[1] for p in pairs]
             obs = h.run_slurm(case["args"], case["sbatch"], rendered, case["errfile"])
             dist["slurm_cases"] += 1
+            for r in case["reports"]:
+                if r[0] in ("acct", "garbage") and len(r) > 3:
+                    dist["raw_forms"][r[3]] = dist["raw_forms"].get(r[3], 0) + 1
             dist["verdicts"][obs["verdict"][0]] = dist["verdicts"].get(obs["verdict"][0], 0) + 1
             if case["items"] is None:
                 dist["raw_args_cases"] += 1
@@ -501,7 +550,7 @@ def run(ctx):
             case = dict(case, errfile=obs["errfile"])
             toks = "None" if case["items"] is None else "(Some %s)" % coqio.lst([coqio.string(t) for t in case["args"].split()])
             ef = "None" if obs["errpath"] is None else "(Some %s)" % coqio.string(obs["errpath"])
-            enc.append(coqio.pair(enc_ctx(obs["ctx"]), enc_sched(case["sbatch"], pairs, case["errfile"]), toks,
+            enc.append(coqio.pair(enc_ctx(obs["ctx"]), enc_sched(case["sbatch"], pairs, case["errfile"]), enc_intended(pairs), toks,
                                   coqio.pair(coqio.lst([coqio.string(a) for a in obs["calls"][0][1:]]), v, enc_cmds(obs["calls"]), ef)))
             keep.append((case, obs))
             key = (case["args"], repr(case["reports"]), repr(case["errfile"]))
@@ -528,10 +577,13 @@ def run(ctx):
             case, obs = keep[i]
             norq = any(it == ["other", "--no-requeue"] for it in case["items"])
             dec = first_decisive([tuple(r) for r in case["reports"]], not norq)
-            finding = "F28d" if (norq and dec == "interrupted" and obs["verdict"] == ["complete"]) else None
+            finding = ("F28d" if (norq and dec == "interrupted" and obs["verdict"] == ["complete"]) else
+                       "F28e" if by_form(case["reports"]) else None)
             out.failures.append(Failure(case=case, observed={"verdict": obs["verdict"], "cmds": [c[0] for c in obs["calls"][1:]]},
                                         expected={"first_decisive_report": dec, "requeue_allowed": not norq}, kind="spec", finding=finding,
-                                        note="--no-requeue: interrupted job reported complete" if finding else "verdict does not follow the scheduler's reports"))
+                                        note=("--no-requeue: interrupted job reported complete" if finding == "F28d" else
+                                              "untruncated 'CANCELLED by <uid>' read as status <uid>" if finding == "F28e" else
+                                              "verdict does not follow the scheduler's reports")))
         for i in res["options"][:40]:
             case, obs = keep[i]
             finding = "F28c" if unrecognised(case["items"]) else None
